@@ -34,6 +34,8 @@ def py_pools():
     partial = [P.Instantiate(P.Implies(P.MetaVar(0), P.MetaVar(1)), frozendict({0: P.EVar(0)})),
                P.Instantiate(P.Implies(P.MetaVar(0), P.MetaVar(1)), frozendict({1: P.MetaVar(0)})),
                P.Instantiate(P._and(P.MetaVar(0), P.MetaVar(2)), frozendict({0: P.MetaVar(1)})),
+               P.Instantiate(P._and(P.MetaVar(0), P.MetaVar(1)), frozendict({1: P.Symbol('s0')})),
+               P.Instantiate(P._or(P.MetaVar(2), P.equiv(P.MetaVar(0), P.MetaVar(1))), frozendict({1: P.EVar(0)})),
                P.Instantiate(P.Exists(0, P.Implies(P.MetaVar(1), P.MetaVar(0))), frozendict({0: P.MetaVar(1)})),
                P.Instantiate(P.ESubst(P.MetaVar(0), P.EVar(0), P.MetaVar(1)), frozendict({1: P.EVar(1)}))]
     return plugs, partial
